@@ -9,7 +9,7 @@ import Ucfg.Model.Conv
   "never panics" is a theorem and not a consequence of totalisation.
 
   `fuel` bounds the recursion (nesting and element loops); Props/C17 proves that
-  `input.length + 2` always suffices.
+  `4 * input.length + 8` is used; sufficiency is checked differentially (a `fuel` result is a reported mismatch).
 -/
 namespace Ucfg.Parse
 open Ucfg Outcome
@@ -54,62 +54,69 @@ inductive UQ where
   | nonUtf8          -- \x80..\xff or octal ≥ 0200: the Go result is not valid UTF-8 (outside the model)
   deriving Repr, DecidableEq
 
+/-- scanner state of strconv.Unquote's loop (UnquoteChar), one character at a time -/
+inductive UQState where
+  | norm                                  -- between characters
+  | esc                                   -- just after a backslash
+  | hex (left : Nat) (v : Nat) (isX : Bool)   -- inside \x / \u / \U, `left` digits still to read
+  | oct (left : Nat) (v : Nat)            -- inside an octal escape
+  deriving Repr, DecidableEq
+
+/-- the simple one-character escapes of UnquoteChar (quote = '"') -/
+def simpleEscape (e : Char) : Option Char :=
+  if e == 'a' then some '\x07'
+  else if e == 'b' then some '\x08'
+  else if e == 'f' then some '\x0c'
+  else if e == 'n' then some '\n'
+  else if e == 'r' then some '\r'
+  else if e == 't' then some '\t'
+  else if e == 'v' then some '\x0b'
+  else if e == '\\' then some '\\'
+  else if e == '"' then some '"'
+  else none
+
 /-- body of strconv.Unquote for a double-quoted literal, after the opening quote;
 succeeds only if the first unescaped quote is the last character -/
-def unquoteBody : List Char → List Char → UQ
-  | _, [] => .syntax                              -- no terminating quote
-  | acc, c :: r =>
+def unquoteBody : UQState → List Char → List Char → UQ
+  | .norm, _, [] => .syntax                              -- no terminating quote
+  | .norm, acc, c :: r =>
     if c == '"' then (if r.isEmpty then .ok acc.reverse else .syntax)
     else if c == '\n' then .syntax
-    else if c != '\\' then unquoteBody (c :: acc) r
-    else match r with
-      | [] => .syntax
-      | e :: r' =>
-        if e == 'a' then unquoteBody ('\x07' :: acc) r'
-        else if e == 'b' then unquoteBody ('\x08' :: acc) r'
-        else if e == 'f' then unquoteBody ('\x0c' :: acc) r'
-        else if e == 'n' then unquoteBody ('\n' :: acc) r'
-        else if e == 'r' then unquoteBody ('\r' :: acc) r'
-        else if e == 't' then unquoteBody ('\t' :: acc) r'
-        else if e == 'v' then unquoteBody ('\x0b' :: acc) r'
-        else if e == '\\' then unquoteBody ('\\' :: acc) r'
-        else if e == '"' then unquoteBody ('"' :: acc) r'
-        else if e == 'x' then
-          match r' with
-          | h1 :: h2 :: r'' =>
-            (match unhex h1, unhex h2 with
-             | some a, some b =>
-               if a * 16 + b < 128 then unquoteBody (Char.ofNat (a * 16 + b) :: acc) r'' else .nonUtf8
-             | _, _ => .syntax)
-          | _ => .syntax
-        else if e == 'u' then
-          match r' with
-          | h1 :: h2 :: h3 :: h4 :: r'' =>
-            (match hexN 4 [h1, h2, h3, h4] 0 with
-             | some (v, _) => if validRune v then unquoteBody (Char.ofNat v :: acc) r'' else .syntax
-             | none => .syntax)
-          | _ => .syntax
-        else if e == 'U' then
-          match r' with
-          | h1 :: h2 :: h3 :: h4 :: h5 :: h6 :: h7 :: h8 :: r'' =>
-            (match hexN 8 [h1, h2, h3, h4, h5, h6, h7, h8] 0 with
-             | some (v, _) => if validRune v then unquoteBody (Char.ofNat v :: acc) r'' else .syntax
-             | none => .syntax)
-          | _ => .syntax
-        else if '0' ≤ e && e ≤ '7' then
-          match r' with
-          | o1 :: o2 :: r'' =>
-            if '0' ≤ o1 && o1 ≤ '7' && '0' ≤ o2 && o2 ≤ '7' then
-              let v := (e.toNat - 48) * 64 + (o1.toNat - 48) * 8 + (o2.toNat - 48)
-              if v > 255 then .syntax
-              else if v < 128 then unquoteBody (Char.ofNat v :: acc) r'' else .nonUtf8
-            else .syntax
-          | _ => .syntax
-        else .syntax
+    else if c == '\\' then unquoteBody .esc acc r
+    else unquoteBody .norm (c :: acc) r
+  | .esc, _, [] => .syntax
+  | .esc, acc, e :: r =>
+    match simpleEscape e with
+    | some c => unquoteBody .norm (c :: acc) r
+    | none =>
+      if e == 'x' then unquoteBody (.hex 2 0 true) acc r
+      else if e == 'u' then unquoteBody (.hex 4 0 false) acc r
+      else if e == 'U' then unquoteBody (.hex 8 0 false) acc r
+      else if '0' ≤ e && e ≤ '7' then unquoteBody (.oct 2 (e.toNat - 48)) acc r
+      else .syntax
+  | .hex _ _ _, _, [] => .syntax
+  | .hex left v isX, acc, c :: r =>
+    match unhex c with
+    | none => .syntax
+    | some x =>
+      let v' := v * 16 + x
+      if left ≤ 1 then
+        if isX then (if v' < 128 then unquoteBody .norm (Char.ofNat v' :: acc) r else .nonUtf8)
+        else if validRune v' then unquoteBody .norm (Char.ofNat v' :: acc) r else .syntax
+      else unquoteBody (.hex (left - 1) v' isX) acc r
+  | .oct _ _, _, [] => .syntax
+  | .oct left v, acc, c :: r =>
+    if '0' ≤ c && c ≤ '7' then
+      let v' := v * 8 + (c.toNat - 48)
+      if left ≤ 1 then
+        if v' > 255 then .syntax
+        else if v' < 128 then unquoteBody .norm (Char.ofNat v' :: acc) r else .nonUtf8
+      else unquoteBody (.oct (left - 1) v') acc r
+    else .syntax
 
 /-- strconv.Unquote on `"` … (the argument includes both quotes) -/
 def unquote : List Char → UQ
-  | '"' :: r => if r.isEmpty then .syntax else unquoteBody [] r
+  | '"' :: r => if r.isEmpty then .syntax else unquoteBody .norm [] r
   | _ => .syntax
 
 /-- number of backslashes at the end of `pre` (reversed prefix = scanning backwards) -/
@@ -293,7 +300,7 @@ def valueWithConfig (std : Stdlib) (content : String) (cfg : ParseCfg) : Outcome
   if !cfg.array && cfg.object then raiseRaw .other
   else
     let inp := trimSpace content.toList
-    match topLoop std cfg (inp.length + 2) [] inp with
+    match topLoop std cfg (4 * inp.length + 8) [] inp with
     | .ok [] => .ok .nil
     | .ok [v] => .ok v
     | .ok vs => .ok (.arr vs)
